@@ -481,8 +481,9 @@ static int dsum_same(const dsum_t *a, const dsum_t *b)
 	return 1;
 }
 
-enum { EP_LOAD, EP_LOAD_STRN, EP_CREATE, EP_CREATE_STRN, EP_FILE, EP_FP, EP_APPEND, NEP };
-static const char *ep_name[NEP] = { "jwks_load", "jwks_load_strn", "jwks_create", "jwks_create_strn", "jwks_load_fromfile", "jwks_load_fromfp", "jwks_load(existing set)" };
+enum { EP_LOAD, EP_LOAD_STRN, EP_CREATE, EP_CREATE_STRN, EP_FILE, EP_FP, EP_APPEND, EP_AFTER_REFUSED, NEP };
+static const char *ep_name[NEP] = { "jwks_load", "jwks_load_strn", "jwks_create", "jwks_create_strn", "jwks_load_fromfile", "jwks_load_fromfp", "jwks_load(existing set)",
+				    "jwks_load(set that refused a text that is not JSON just before)" };
 
 /* load doc (len bytes; NUL-terminated too) through one entry point; returns the set, *skip = items that were there before */
 static jwk_set_t *load_via(int ep, const char *doc, size_t len, size_t *skip)
@@ -521,6 +522,13 @@ static jwk_set_t *load_via(int ep, const char *doc, size_t len, size_t *skip)
 		*skip = 1;
 		return jwks_load(s, doc);
 	}
+	case EP_AFTER_REFUSED: {
+		/* the set carries the error of the refused load (nobody cleared it): what the next document adds is the same */
+		if (has_nul)
+			return NULL;
+		jwk_set_t *s = jwks_create(DOC_NONJSON);
+		return jwks_load(s, doc);
+	}
 	}
 	return NULL;
 }
@@ -555,11 +563,13 @@ static void c07_doc(const char *doc, size_t len, unsigned epmask, int use)
 		jwk_set_t *s = load_via(ep, doc, len, &skip);
 		if (s == (jwk_set_t *)-1)
 			continue;
-		if (!s && strlen(doc) != len && (ep == EP_LOAD || ep == EP_CREATE || ep == EP_APPEND))
+		if (!s && strlen(doc) != len && (ep == EP_LOAD || ep == EP_CREATE || ep == EP_APPEND || ep == EP_AFTER_REFUSED))
 			continue;
 		c07_loads++;
 		dsum_t d;
 		summarize(s, skip, &d, use);
+		if (ep == EP_AFTER_REFUSED && j && d.set_err)
+			d.set_err = 0;   /* the earlier refusal's flag, not this document's */
 		vf_obs(vf_hash_mix(d.set_err, d.n));
 		if (d.n > 0)
 			vf_nontrivial(vf_hash(doc, len));
